@@ -49,6 +49,27 @@ theorem instanceRunSched_all (discard : Bool) (ts : List Token) (hw : ∀ t ∈ 
       simp [instanceRunSched, tokenSamples, h1, hc, h2, i1, i2, i3]
     · simp [instanceRunSched, tokenSamples, h1, hc, i1, i2, i3]
 
+/-- with a clock that does not run backwards the stored overdue is exactly how late the instance asks -/
+theorem waiterOverdue_eq (next lastNow now : Int) (h : lastNow ≤ now) :
+    waiterOverdue next lastNow now = if now - next ≥ 0 then now - next else 0 := by
+  unfold waiterOverdue
+  split <;> split <;> (try split) <;> omega
+
+theorem isSlowDown_iff (next lastNow now : Int) (h : lastNow ≤ now) :
+    isSlowDown (waiterOverdue next lastNow now) = true ↔ now - next ≥ maxOverdue := by
+  rw [waiterOverdue_eq next lastNow now h]
+  unfold isSlowDown maxOverdue
+  split <;> simp <;> omega
+
+theorem instanceRunSched_on_time (discard : Bool) (ts : List Token) (h : ∀ t ∈ ts, t.slowDown = false) :
+    instanceRunSched discard ts = instanceRunSched false ts := by
+  induction ts with
+  | nil => simp [instanceRunSched]
+  | cons t rest ih =>
+    have h1 := h t (List.mem_cons_self ..)
+    have ih' := ih (fun u hu => h u (List.mem_cons_of_mem _ hu))
+    simp [instanceRunSched, shootCond, h1, ih']
+
 /-! ## the shared iterator -/
 
 /-- nobody died, and whoever is inside a call holds the mutex -/
